@@ -221,6 +221,27 @@ def traced_configurations(rng, thorough):
     if thorough:
         for c in out:
             c["cap"] = c["cap"] * 8
+    # overlapping writer() calls with DIFFERENT strict / strict_allow_default / disable_tuple_notation flags on data for which
+    # the flag matters; line-level points inside writer() and Writer.write / JSONWriter.write
+    ws = {"type": "record", "name": "W", "fields": [{"name": "a", "type": "long"}, {"name": "u", "type": ["null", "string", {"type": "record", "name": "T", "fields": [{"name": "q", "type": "long"}]}]},
+                                                        {"name": "dflt", "type": "int", "default": 3}]}
+    wsetup = [{"api": "parse_schema", "schema": ws, "$out": "WS"}]
+    extra = [{"a": 1, "u": None, "dflt": 1, "extra": 9}, {"a": 2, "u": "x", "dflt": 2, "extra": 9}]
+    plain = [{"a": 3, "u": "y", "dflt": 3}]
+    missing = [{"a": 4, "u": None}, {"a": 5, "u": None}]
+    tupled = [{"a": 6, "u": ("T", {"q": 1}), "dflt": 0}, {"a": 7, "u": ("T", {"q": 2}), "dflt": 0}]
+    wopt = dict(mcalls=None, cap=None, fresh_setup=False, isolate=True, family="preempt", samples=1000, random=20 if not thorough else 200,
+                trace=[["_write_py.py", "writer"], ["_write_py.py", "write"], ["json_write.py", "json_writer"]],
+                sig="C18:writer:overlapping-calls-with-different-option-flags:result-differs-from-sequential")
+    W_ = lambda api, recs, **kw: [{"api": api, "schema": {"$slot": "WS"}, "records": recs, "kw": kw}]
+    out.append(dict(wopt, name="writer-flags-extra-field-vs-strict", setup=wsetup, threads=[W_("writer", extra), W_("writer", plain, strict=True)]))
+    out.append(dict(wopt, name="writer-flags-strict-vs-extra-field", setup=wsetup, threads=[W_("writer", plain + plain, strict=True), W_("writer", extra)]))
+    out.append(dict(wopt, name="writer-flags-missing-default-vs-strict", setup=wsetup,
+                    threads=[W_("writer", missing, strict_allow_default=True), W_("writer", plain, strict=True)]))
+    out.append(dict(wopt, name="writer-flags-tuple-notation", setup=wsetup,
+                    threads=[W_("writer", tupled), W_("writer", plain, disable_tuple_notation=True)]))
+    out.append(dict(wopt, name="json_writer-flags-extra-field-vs-strict", setup=wsetup,
+                    threads=[W_("json_writer", extra), W_("json_writer", plain, strict=True)]))
     # deeply nested recursive data in both threads (two linked lists): call-level switch points in the recursive functions
     node = {"type": "record", "name": "Node", "fields": [{"name": "v", "type": "long"}, {"name": "next", "type": ["null", "Node"]}]}
     ndef = {"Node": node}
